@@ -16,7 +16,7 @@ CHECKS = {
   note="OpenCV box filters are modelled as zero-border window sums (validated by the correspondence run on integer data where "
        "float32 sums are exact); rasterio.fill.fillnodata is a parameter of the model (its output is fed to the model); "
        "numpy std/percentile enter through the block normalisation pair (n0, n1) taken from the code."
-       ' Input strata added from the seeded-change rounds: kernels up to 19 x 21 on fully valid blocks, sources negative throughout, block normalisation compared with its definition. Since round 8: a second fit against a reference block object that already went through another fit (the blocks are zeroed in place under their cached masks); the acceptance test and the warning of validate_kernel_shape are extracted from the source text and proved equal to the model\'s (Props/SrcTieCli.lean). Round 9: blocks whose reference is constant (block gain exactly 0: gain 0, offset = the reference value), NaN-aware tests.',
+       ' Input strata added from the seeded-change rounds: kernels up to 19 x 21 on fully valid blocks, sources negative throughout, block normalisation compared with its definition. Since round 8: a second fit against a reference block object that already went through another fit (the blocks are zeroed in place under their cached masks); the acceptance test and the warning of validate_kernel_shape are extracted from the source text and proved equal to the model\'s (Props/SrcTieCli.lean). Round 9: blocks whose reference is constant (block gain exactly 0: gain 0, offset = the reference value), NaN-aware tests. Round 10: 3 input(s) found by a bug-hunting sub-agent on the unchanged code (harness/found/C01_demo*.py) are replayed by this check on every run; those that violate the property are listed in known_findings.json by script name (repaired ones must stay quiet).',
   tech="Lean 4 proof (field_simp/ring/linarith over Q, list induction) + bit-exact differential correspondence run", ref='7 C01'),
  'C02': dict(
   text="Proof (Lean 4) over exact rationals: if ref = a x + b on the jointly valid pixels of a window, gain-offset OLS returns "
@@ -37,7 +37,7 @@ CHECKS = {
        "there, also on dyadic grids whose pixel size is not a power of two: GDAL multiplies by an inexact inverse geotransform); "
        "dyadic grids with power-of-two pixels cover them exactly. The whole-image pipeline is an executable model that is "
        "differentially tested; the theorems are per pixel."
-       ' Input strata added from the seeded-change rounds: non-square pixels, flat source patches and isolated valid pixels (in-painted parameters), 8-bit sources with a partly semi-transparent alpha band, the cubic / cubic-spline kernels.',
+       ' Input strata added from the seeded-change rounds: non-square pixels, flat source patches and isolated valid pixels (in-painted parameters), 8-bit sources with a partly semi-transparent alpha band, the cubic / cubic-spline kernels. Round 10: 3 input(s) found by a bug-hunting sub-agent on the unchanged code (harness/found/C02_demo*.py) are replayed by this check on every run; those that violate the property are listed in known_findings.json by script name (repaired ones must stay quiet).',
   tech="Lean 4 proof (algebra over Q, list induction) + constructed-oracle differential runs", ref='7 C02'),
  'C03': dict(
   text="Proof (Lean 4): a corrected pixel is valid only if the source pixel is, unconditionally, on both processing grids "
@@ -52,7 +52,7 @@ CHECKS = {
   note="Known finding D17 (open): gain-offset without in-painting loses an isolated valid pixel (degenerate window; witness theorem "
        "gain_offset_single_point_no_fit). GDAL validity rules R1 (average) / R2 (centre rule for up-sampling) are modelled and measured; no-gap tiling is C06's; "
        "re-masking after rounding is C13's. The converse is proved per pixel from explicit premises, not as one end-to-end theorem."
-       ' Input strata added from the seeded-change rounds: tie geometries, alpha sources with semi-transparent valid pixels, exactly constant source patches with in-painting on. Since round 8: a 1/64 m source against a reference with pixels 2048 source pixels long, the source\'s far edge one source pixel beyond a reference pixel edge (no window edge may be snapped away); expand_window_to_grid\'s source-text tie also serves this property. Round 9: the flat-patch case as one block with the in-paint threshold 0 (bottom of the documented range).',
+       ' Input strata added from the seeded-change rounds: tie geometries, alpha sources with semi-transparent valid pixels, exactly constant source patches with in-painting on. Since round 8: a 1/64 m source against a reference with pixels 2048 source pixels long, the source\'s far edge one source pixel beyond a reference pixel edge (no window edge may be snapped away); expand_window_to_grid\'s source-text tie also serves this property. Round 9: the flat-patch case as one block with the in-paint threshold 0 (bottom of the documented range). Round 10: 3 input(s) found by a bug-hunting sub-agent on the unchanged code (harness/found/C03_demo*.py) are replayed by this check on every run; those that violate the property are listed in known_findings.json by script name (repaired ones must stay quiet).',
   tech="Lean 4 proof (order/field facts over Q, list induction) + differential mask comparison on real fusions", ref='7 C03'),
  'C04': dict(
   text="Proof (Lean 4) on the block fan-out machine (4 locks, per-block straight-line program, any number of threads, any "
@@ -94,7 +94,7 @@ CHECKS = {
        "multi-block real fusions against the whole-image model (Model/FuseImage.lean), which has no blocks at all, and at every pixel - "
        "seams included - against the block model (what the block that writes a pixel computes from what it read; fuseimgblk op).",
   note="gain-blk-offset and in-painting have a per-block term and are excluded (partial), as the property states."
-       ' Known finding D24 (open): down-sampling methods other than `average` are partition dependent (recorded signatures: cubic; bilinear on the reference grid). Since round 8: mask_partial=True with bilinear / cubic-spline up-sampling in 2, 4 and 8 blocks against one (aligned integer ratios, gain model: findings D8 / D16 cannot interfere).',
+       ' Known finding D24 (open): down-sampling methods other than `average` are partition dependent (recorded signatures: cubic; bilinear on the reference grid). Since round 8: mask_partial=True with bilinear / cubic-spline up-sampling in 2, 4 and 8 blocks against one (aligned integer ratios, gain model: findings D8 / D16 cannot interfere). Round 10: 5 input(s) found by a bug-hunting sub-agent on the unchanged code (harness/found/C05_demo*.py) are replayed by this check on every run; those that violate the property are listed in known_findings.json by script name (repaired ones must stay quiet).',
   tech="Lean 4 proof (omega on windows, list congruence) + partition-pair differential runs", ref='7 C05'),
  'C06': dict(
   text="Proof (Lean 4): for all origins, pixel sizes, image sizes, block lengths s>0 and overlaps v>=0 the processing-grid "
@@ -123,7 +123,7 @@ CHECKS = {
        "tolerance for general factors; and by the real KernelModel.fit on scaled blocks against the model of the unscaled block.",
   note="Hypotheses of the law that are measured, not proved: rasterio.fill.fillnodata commutes with multiplication by c; numpy "
        "std / percentile scale (variance_scale is proved; the percentile is not); GDAL warp is a normalised weighted mean. Integer "
-       "output dtypes are excluded (rounding is not homogeneous). Since round 8: every fourth case stores the rescaled copies as float64 next to float32 originals (the law is about values, not about the data type of the file).",
+       "output dtypes are excluded (rounding is not homogeneous). Since round 8: every fourth case stores the rescaled copies as float64 next to float32 originals (the law is about values, not about the data type of the file). Round 10: 3 input(s) found by a bug-hunting sub-agent on the unchanged code (harness/found/C07_demo*.py) are replayed by this check on every run; those that violate the property are listed in known_findings.json by script name (repaired ones must stay quiet).",
   tech="Lean 4 proof (field algebra over Q, case analysis on Option/ite) + bit-identity differential runs", ref='7 C07'),
  'C08': dict(
   text="Proof (Lean 4): under a dataset mask a hidden value reads as invalid whatever is stored; NaN nodata, numeric nodata, "
@@ -135,7 +135,7 @@ CHECKS = {
        "outputs), parameter image and comparison statistics; and by from_rio_dataset vs readPx.",
   note="How GDAL exposes masks (alpha honoured only for 1/3-band Byte/UInt16 + alpha) is GDAL's rule; WarpedVRT mask handling "
        "is not modelled."
-       ' Encodings exercised: NaN / numeric / non-float32 numeric nodata, internal mask (hidden 0, 3.4e38, -1e30, NaN, random), mask + nodata tag, side-car .msk, alpha (opaque and partly semi-transparent); south-up storage x encoding (known finding D19, open: an internal mask is lost through WarpedVRT). Since round 8: sources invalid over an area larger than a block\'s read window (all mask encodings, hidden values under the mask).',
+       ' Encodings exercised: NaN / numeric / non-float32 numeric nodata, internal mask (hidden 0, 3.4e38, -1e30, NaN, random), mask + nodata tag, side-car .msk, alpha (opaque and partly semi-transparent); south-up storage x encoding (known finding D19, open: an internal mask is lost through WarpedVRT). Since round 8: sources invalid over an area larger than a block\'s read window (all mask encodings, hidden values under the mask). Round 10: 3 input(s) found by a bug-hunting sub-agent on the unchanged code (harness/found/C08_demo*.py) are replayed by this check on every run; those that violate the property are listed in known_findings.json by script name (repaired ones must stay quiet).',
   tech="Lean 4 proof (case analysis, list congruence) + bit-identity differential runs across encodings", ref='7 C08'),
  'C09': dict(
   text="Proof (Lean 4) on the same machine with fault plans: a failed job makes the caller's outcome `raised` (fail_loud); "
@@ -147,7 +147,7 @@ CHECKS = {
        "terminates within a watchdog, all four datasets closed, all locks free, reader reusable with the reference result; "
        "multi-thread traces replayed by the Lean machine with the same fault plan (outcome raised, locks free, all other blocks "
        "complete); CLI exit codes; compare and stats analogues.",
-  note="Faults inside GDAL that do not surface as Python exceptions are outside. The watchdog bound (60 s) stands for liveness. Since round 8: every fourth fault plan writes its outputs through the Erdas Imagine or ENVI driver. Round 9: CLI compare / stats exit status under block failures; worker threads alive after a failed call are a failing input (and are joined before the datasets are closed); failure of the last tile of the valid-data window pre-pass on an all-valid parameter image; an interpreter crash of the check process is reported as a violation.",
+  note="Faults inside GDAL that do not surface as Python exceptions are outside. The watchdog bound (60 s) stands for liveness. Since round 8: every fourth fault plan writes its outputs through the Erdas Imagine or ENVI driver. Round 9: CLI compare / stats exit status under block failures; worker threads alive after a failed call are a failing input (and are joined before the datasets are closed); failure of the last tile of the valid-data window pre-pass on an all-valid parameter image; an interpreter crash of the check process is reported as a violation. Round 10: 3 input(s) found by a bug-hunting sub-agent on the unchanged code (harness/found/C09_demo*.py) are replayed by this check on every run; those that violate the property are listed in known_findings.json by script name (repaired ones must stay quiet).",
   tech="Lean 4 proof about the machine under fault plans + exhaustive single-fault enumeration on the real code",
   ref='7 C09', category='proof'),
  'C10': dict(
@@ -160,7 +160,7 @@ CHECKS = {
        "object / fresh objects / CLI / mixed; str and Path; overwrite on/off; with/without parameter image; pre-existing garbage "
        "or older outputs): outcomes and listings vs the machine, bytes+mtime of untouched files, decoded outputs vs fresh runs.",
   note="GDAL side-car files (.aux.xml, .msk, .ovr) are whitelisted. Content identity is the decoded raster (pixels, masks, "
-       "tags, descriptions), not the compressed bytes. Since round 8: an overwrite over outputs that own GDAL side-car files (strict GeoTIFF profile: tags in .aux.xml) must equal the same call into an empty directory - files, decoded content, tags, parameter statistics. Round 9: homonim fuse on a symbolic link to the source in another directory and on a relative source path, without --out-dir.",
+       "tags, descriptions), not the compressed bytes. Since round 8: an overwrite over outputs that own GDAL side-car files (strict GeoTIFF profile: tags in .aux.xml) must equal the same call into an empty directory - files, decoded content, tags, parameter statistics. Round 9: homonim fuse on a symbolic link to the source in another directory and on a relative source path, without --out-dir. Round 10: 2 input(s) found by a bug-hunting sub-agent on the unchanged code (harness/found/C10_demo*.py) are replayed by this check on every run; those that violate the property are listed in known_findings.json by script name (repaired ones must stay quiet).",
   tech="Lean 4 proof (invariants over call histories of a state machine) + differential history runs", ref='7 C10'),
  'C11': dict(
   text="Proof (Lean 4) over exact rationals: block sums are additive over any split of the pixels, accumulating the blocks of any "
@@ -176,7 +176,7 @@ CHECKS = {
        "row = band average, CLI JSON = API.",
   note="Known findings (open): D7 forced finer processing grid with a non-nearest kernel (block-edge effects), D10 duplicate band "
        "names collapse rows, D11 N partition-dependent in tie geometry on a forced finer grid. Square roots are not modelled "
-       "(squares compared). GDAL cubic/cubic_spline up-sampling is not modelled (those cases only get the partition check). Round 9: near-identical pairs at 16-bit magnitudes (5000 / 40000 differing by 1-10 counts; reflectances differing by 1e-4) against the float64 definition of RMSE / rRMSE.",
+       "(squares compared). GDAL cubic/cubic_spline up-sampling is not modelled (those cases only get the partition check). Round 9: near-identical pairs at 16-bit magnitudes (5000 / 40000 differing by 1-10 counts; reflectances differing by 1e-4) against the float64 definition of RMSE / rRMSE. Round 10: 3 input(s) found by a bug-hunting sub-agent on the unchanged code (harness/found/C11_demo*.py) are replayed by this check on every run; those that violate the property are listed in known_findings.json by script name (repaired ones must stay quiet).",
   tech="Lean 4 proof (list induction, permutation invariance of a commutative fold, field algebra) + differential runs", ref='7 C11'),
  'C12': dict(
   text="Proof (Lean 4): tile accumulators are additive, tiling- and completion-order-invariant (tile_partition_invariant, "
@@ -188,7 +188,7 @@ CHECKS = {
        "figures equal across tilings, CLI JSON = API.",
   note="Bands holding +-inf (R2 with zero TSS) are outside the rational model and skipped in the value comparison. std is "
        "compared squared."
-       ' Since round 4 the +-inf bands are compared with their IEEE definitions (finding D20, fixed in /repo); thresholds outside [0, 1]; tiles without valid pixels inside the data window. Since round 8: thresholds whose repr has no decimal point (1e-05: finding D26, fixed in /repo); the valid-data window pre-pass is modelled (Model/StatsWindow.lean), proved never to hide a valid pixel of any band for any tiling and completion order (no_valid_pixel_skipped; counterexample for a first-band window), compared with the real _get_data_window and with the tiles stats() actually reads (datawin op), and tied to the source text; the FUSE_* tag contract between fuse, validate_param_image and ParamStats is extracted and proved (src_C12_tags). Round 9: end-to-end theorem stats_reads_all_valid_pixels (Props/StatsE2E.lean): the accumulator of the tiles read is the accumulator of all valid pixels of the band.',
+       ' Since round 4 the +-inf bands are compared with their IEEE definitions (finding D20, fixed in /repo); thresholds outside [0, 1]; tiles without valid pixels inside the data window. Since round 8: thresholds whose repr has no decimal point (1e-05: finding D26, fixed in /repo); the valid-data window pre-pass is modelled (Model/StatsWindow.lean), proved never to hide a valid pixel of any band for any tiling and completion order (no_valid_pixel_skipped; counterexample for a first-band window), compared with the real _get_data_window and with the tiles stats() actually reads (datawin op), and tied to the source text; the FUSE_* tag contract between fuse, validate_param_image and ParamStats is extracted and proved (src_C12_tags). Round 9: end-to-end theorem stats_reads_all_valid_pixels (Props/StatsE2E.lean): the accumulator of the tiles read is the accumulator of all valid pixels of the band. Round 10: 2 input(s) found by a bug-hunting sub-agent on the unchanged code (harness/found/C12_demo*.py) are replayed by this check on every run; those that violate the property are listed in known_findings.json by script name (repaired ones must stay quiet).',
   tech="Lean 4 proof (commutative-monoid fold invariance, algebra over Q) + differential runs", ref='7 C12'),
  'C13': dict(
   text="Proof (Lean 4): round-half-even is within half a unit and ties go to even (rhe_nearest, rhe_tie_even); a valid float32 "
@@ -198,7 +198,7 @@ CHECKS = {
        "_convert_array_dtype on adversarial arrays (ties, negatives, >2^32, +-inf, +-3e38, NaN) x 7 dtypes x 5-7 nodata settings "
        "and by real fusions repeated with dtype x nodata x driver (GTiff/PNG) x lossless creation options: every output pixel and "
        "mask must equal the model conversion of the float32 run.",
-  note="GeoTIFF/PNG encoders and the GDAL internal-mask mechanism are trusted to store what is written (lossless options only).",
+  note="GeoTIFF/PNG encoders and the GDAL internal-mask mechanism are trusted to store what is written (lossless options only). Round 10: 2 input(s) found by a bug-hunting sub-agent on the unchanged code (harness/found/C13_demo*.py) are replayed by this check on every run; those that violate the property are listed in known_findings.json by script name (repaired ones must stay quiet).",
   tech="Lean 4 proof (omega/nlinarith on integer division, case analysis) + per-pixel differential run", ref='7 C13'),
  'C14': dict(
   text="Proof (Lean 4): paramIndex n i k = k n + i + 1 gives bands i, n+i, 2n+i; it is a bijection onto 1..3n and injective "
@@ -209,7 +209,7 @@ CHECKS = {
        "layout; tags; ParamStats accepts; parameter mask = jointly valid on the processing grid (model validity rules); "
        "source-grid identity bit for bit.",
   note="The value content of the parameter bands is C01/C05's; degenerate windows are excluded from the mask comparison "
-       "(gain-offset skipped there). Since round 8: one reference band paired with several source bands (`repeat` selections); validate_param_image's count test, required tags and suffix list are extracted and proved to match what fuse writes (src_C12_label_matches_suffix). Round 9: a parameter image with non-finite statistics (R2 = -inf over a constant reference patch) is accepted by the API, homonim stats and homonim stats --output.",
+       "(gain-offset skipped there). Since round 8: one reference band paired with several source bands (`repeat` selections); validate_param_image's count test, required tags and suffix list are extracted and proved to match what fuse writes (src_C12_label_matches_suffix). Round 9: a parameter image with non-finite statistics (R2 = -inf over a constant reference patch) is accepted by the API, homonim stats and homonim stats --output. Round 10: 3 input(s) found by a bug-hunting sub-agent on the unchanged code (harness/found/C14_demo*.py) are replayed by this check on every run; those that violate the property are listed in known_findings.json by script name (repaired ones must stay quiet).",
   tech="Lean 4 proof (Nat division/modulo arithmetic, list computation) + bit-identity differential runs", ref='7 C14'),
  'C15': dict(
   text="Proof (Lean 4) about the executable model of _match_pair_bands (greedy loop with masked-array semantics, threshold, "
@@ -227,7 +227,7 @@ CHECKS = {
        "(numpy any()). Wavelengths are dyadic rationals in the correspondence run; tolerance = exact rational of the double 0.1. "
        "Modelled domain: wavelengths are positive or absent; a *source* wavelength of exactly 0.0 (division by zero: the code gets inf "
        "for a non-zero reference wavelength and then refuses the match, the model treats the distance as undefined) is outside the "
-       "model and the theorems assume positive source wavelengths; the correspondence run generates none. Since round 8: RGB(A) files described by colour interpretation only with the alpha band first or in the middle, against references tagged near the standard wavelengths; the soundness predicate counts the documented colour-interpretation defaults as wavelengths; the candidate filter, refusal order, selection chain and RGB table of _get_band_info are extracted and tied.",
+       "model and the theorems assume positive source wavelengths; the correspondence run generates none. Since round 8: RGB(A) files described by colour interpretation only with the alpha band first or in the middle, against references tagged near the standard wavelengths; the soundness predicate counts the documented colour-interpretation defaults as wavelengths; the candidate filter, refusal order, selection chain and RGB table of _get_band_info are extracted and tied. Round 10: 1 input(s) found by a bug-hunting sub-agent on the unchanged code (harness/found/C15_demo*.py) are replayed by this check on every run; those that violate the property are listed in known_findings.json by script name (repaired ones must stay quiet).",
   tech="Lean 4 proof (loop invariant for the greedy matcher, list/nodup/sublist reasoning) + differential run", ref='7 C15'),
  'C16': dict(
   text="Proof (Lean 4): the repaired covers_bounds predicate accepts iff the source footprint is contained in the reference "
@@ -240,7 +240,7 @@ CHECKS = {
        "outside the reference.",
   note="Known finding D15 (open): across CRSs the code tests against the bounding box of the re-projected reference. "
        "Cross-CRS footprints are not modelled (PROJ/WarpedVRT geometry); float noise of flush placements in decimal "
-       "geometry is absorbed by the 1e-6 px tolerance of the repaired predicate, which the exact model ignores.",
+       "geometry is absorbed by the 1e-6 px tolerance of the repaired predicate, which the exact model ignores. Round 10: 3 input(s) found by a bug-hunting sub-agent on the unchanged code (harness/found/C16_demo*.py) are replayed by this check on every run; those that violate the property are listed in known_findings.json by script name (repaired ones must stay quiet).",
   tech="Lean 4 proof (linear integer arithmetic, decide over a finite table) + differential correspondence run", ref='7 C16'),
  'C17': dict(
   text="Proof (Lean 4): erosion characterisation, the full-coverage definition (kept iff the pixel and every pixel of the "
@@ -256,7 +256,7 @@ CHECKS = {
        "on the partition; the whole-image model (pmask) against the real mask; degenerate-window pairs (D16).",
   note="Known findings D8 and D16 (open; D16: with gain-offset a kernel window in which the source is constant has no fit, and "
        "whether it is constant depends on where a block cuts it).  D8: in geometries where source pixel centres lie exactly on reference pixel edges the mask depends "
-       "on the block partition (nearest-neighbour tie + erosion reach at seams). GDAL nearest tie-breaking is not modelled.",
+       "on the block partition (nearest-neighbour tie + erosion reach at seams). GDAL nearest tie-breaking is not modelled. Round 10: 2 input(s) found by a bug-hunting sub-agent on the unchanged code (harness/found/C17_demo*.py) are replayed by this check on every run; those that violate the property are listed in known_findings.json by script name (repaired ones must stay quiet).",
   tech="Lean 4 proof (omega, Bool/List.all reasoning) + differential mask comparison against the model definition", ref='7 C17'),
  'C18': dict(
   text="Proof (Lean 4) of the decision logic: auto resolves to the coarser image (ties to the reference), explicit choices are "
@@ -272,7 +272,7 @@ CHECKS = {
        "combine_profiles vs the model on generated profiles.",
   note="Partial: WarpedVRT (north-up re-projection, CRS changes), rotated and cross-CRS inputs are exercised, not modelled; "
        "south-up storage is only generated on dyadic geometry (a flipped decimal grid is an ulp off the north-up one)."
-       ' Known finding D21 (open): with different CRSs and the source grid as processing grid the corrected image is written on the re-projected source grid. Since round 8: bands paired by hand against the wavelengths with force=True - the corrected bands carry the tags of the bands they were paired with. Round 9: numeric settings (thresholds 1/3, 0.123456789; the computed block memory) must parse back exactly from the FUSE_* tags of both outputs.',
+       ' Known finding D21 (open): with different CRSs and the source grid as processing grid the corrected image is written on the re-projected source grid. Since round 8: bands paired by hand against the wavelengths with force=True - the corrected bands carry the tags of the bands they were paired with. Round 9: numeric settings (thresholds 1/3, 0.123456789; the computed block memory) must parse back exactly from the FUSE_* tags of both outputs. Round 10: 3 input(s) found by a bug-hunting sub-agent on the unchanged code (harness/found/C18_demo*.py) are replayed by this check on every run; those that violate the property are listed in known_findings.json by script name (repaired ones must stay quiet).',
   tech="Lean 4 proof of the decision logic (+ corollary of the matcher theorem) + differential runs", ref='7 C18'),
  'C19': dict(
   text="Proof (Lean 4) of the front-end logic: per-key precedence command line > file > default (merge_precedence), file keys "
@@ -287,7 +287,7 @@ CHECKS = {
        "by `homonim fuse --compare [FILE]` (options from flags or the configuration file) recorded and compared with the API call "
        "with the same settings (grid, bands, statistics, --output JSON); stats JSON vs API in C12.",
   note="Partial: click's own parsing and type conversion are trusted; values that come from the YAML file bypass click's "
-       "callbacks (e.g. a kernel shape arrives as a list), which the harness mirrors. Since round 8: the default= expression of every click option that feeds an API dictionary is extracted (it must be an expression over the API's own create_* defaults), as are validate_threads (with both callers), the output-name f-strings and validate_kernel_shape; proved equal to the model's.",
+       "callbacks (e.g. a kernel shape arrives as a list), which the harness mirrors. Since round 8: the default= expression of every click option that feeds an API dictionary is extracted (it must be an expression over the API's own create_* defaults), as are validate_threads (with both callers), the output-name f-strings and validate_kernel_shape; proved equal to the model's. Round 10: 3 input(s) found by a bug-hunting sub-agent on the unchanged code (harness/found/C19_demo*.py) are replayed by this check on every run; those that violate the property are listed in known_findings.json by script name (repaired ones must stay quiet).",
   tech="Lean 4 proof + translator-generated tables (decide) + CLI-vs-API differential runs", ref='7 C19'),
  'C20': dict(
   text="Proof (Lean 4): for every integer window with non-negative size the boundless read succeeds (read_total) and returns "
@@ -301,7 +301,7 @@ CHECKS = {
        "Tied to the code by ~4000 reads (exhaustive per-axis windows, 4 dtype/nodata/mask/band variants), ~200 writes and 50 "
        "writes of blocks with invalid pixels into internal-mask / numeric-nodata datasets, compared pixel by pixel.",
   note="GDAL read/write of an in-range window is trusted to transfer pixels faithfully; dtype conversion on write belongs to C13."
-       ' Findings D22 (multi-band block with conversion) and D23 (window=None on decimal grids) were fixed in /repo; legs for both, for rotated / sheared / south-up reads and for values near a numeric nodata value. Round 9: blocks whose mask was read, then edited in place through ra.array[...], then written: the window reads back the block as edited.',
+       ' Findings D22 (multi-band block with conversion) and D23 (window=None on decimal grids) were fixed in /repo; legs for both, for rotated / sheared / south-up reads and for values near a numeric nodata value. Round 9: blocks whose mask was read, then edited in place through ra.array[...], then written: the window reads back the block as edited. Round 10: 3 input(s) found by a bug-hunting sub-agent on the unchanged code (harness/found/C20_demo*.py) are replayed by this check on every run; those that violate the property are listed in known_findings.json by script name (repaired ones must stay quiet).',
   tech="Lean 4 proof (omega over integer windows, list extensionality) + exhaustive small-window differential run", ref='7 C20'),
 }
 NA_REASON = 'check not built yet in this round (planned: see DESIGN.md section 7); nothing is claimed for it'
